@@ -34,9 +34,32 @@ def run(ctx):
     ctx.rule("C16.R7", "K3", "(= C10.R2) a reload merges the sources afresh: the raw_env exports of the outgoing configuration are undone before the configuration (incl. GUNICORN_CMD_ARGS) is re-read, and a new Config is built")
     from .c10 import env_reset_before_reload
     env_reset_before_reload(ctx, "C16.R7")
+    ctx.rule("C16.R9", "K2", "every assignment of a setting goes through its validator at that moment: Setting.set has no path that skips the call (no memo of earlier results: validators normalise against the "
+             "current directory / file system / user database) and stores exactly what the validator returned")
+    r9(ctx)
     ctx.rule("C16.R8", "K3/K8", "the Paste server runner keeps the order of authority: defaults it derives from the Paste ini are set before the gunicorn configuration file is loaded, "
              "the [server:main] options (its command line) after; nothing derived is smuggled into those options")
     r8(ctx)
+
+
+def r9(ctx):
+    repo = ctx.repo
+    f = ctx.fn(repo.func(CFG + ".Setting.set"))
+    g = f.cfg
+    vc = [c for c in walk_own(f.node) if isinstance(c, ast.Call) and isinstance(c.func, ast.Attribute) and c.func.attr == "validator" and tail(c.func.value) == "self"]
+    ctx.need(vc, "C16.R9: Setting.set does not call self.validator")
+    vn = [n for c in vc for n in nodes_with(f, c)]
+    pth = g.must_pass(g.entry, vn, follow_exc=False)
+    ctx.check("C16.R9", pth is None, key(f, "always-validates"), site(f), "Setting.set can return without calling the validator (cached / short-cut result): a value accepted once is installed again although "
+              "the validator would now reject or normalise it differently (relative chdir in another directory, a file that no longer exists, a user that was removed)", "validator called on every set()",
+              path=pth and g.fmt_path(pth))
+    stores = [x for x in walk_own(f.node) if isinstance(x, ast.Assign) and any(isinstance(t, ast.Attribute) and t.attr == "value" and tail(t.value) == "self" for t in x.targets)]
+    ctx.check("C16.R9", bool(stores) and all(any(x.value is c for c in vc) for x in stores), key(f, "stores-validated"), site(f, stores[0] if stores else None),
+              "Setting.set stores something other than what the validator just returned", "self.value = self.validator(val)")
+    fc = ctx.fn(repo.func(CFG + ".Config.set"))
+    sc = [c for c in method_calls(fc, "set") if "settings" in norm(c.func.value)]
+    pth = fc.cfg.must_pass(fc.cfg.entry, [n for c in sc for n in nodes_with(fc, c)], follow_exc=False) if sc else [fc.cfg.entry]
+    ctx.check("C16.R9", bool(sc) and pth is None, key(fc, "config-set-delegates"), site(fc), "Config.set can return without handing the value to the setting's set()", "settings[name].set(value)")
 
 
 def r8(ctx):
